@@ -926,3 +926,152 @@ mod cup {
     }
 }
 pub use cup::run as cup;
+
+// ------------------------------------------------------------------ C15
+mod wire {
+    use super::*;
+    use omaha_client::common::{App, UserCounting};
+    use omaha_client::configuration::{Config, Updater};
+    use omaha_client::cup_ecdsa::StandardCupv2Handler;
+    use omaha_client::protocol::request::{Event, EventErrorCode, EventResult, EventType, InstallSource, GUID, OS};
+    use omaha_client::protocol::Cohort;
+    use omaha_client::request_builder::{RequestBuilder, RequestParams};
+    use omaha_client::version::Version;
+
+    fn template(t: &str) -> App {
+        match t {
+            "t1" => App::builder().id("app-a").version([1, 2, 3, 4]).cohort(Cohort { id: Some("c1".into()), hint: None, name: None })
+                .user_counting(UserCounting::ClientRegulatedByDate(Some(5))).build(),
+            "t2" => {
+                let mut a = App::builder().id("app-a").version([9, 9]).cohort(Cohort { id: None, hint: Some("h2".into()), name: Some("".into()) })
+                    .fingerprint("fp2").build();
+                a.extra_fields.insert("k1".into(), "v1".into());
+                a
+            }
+            _ => App::builder().id("app-b").version([0, 0, 0, 1]).user_counting(UserCounting::ClientRegulatedByDate(Some(0))).build(),
+        }
+    }
+
+    fn event(e: &str) -> Event {
+        match e {
+            "e1" => Event::success(EventType::UpdateDownloadStarted),
+            _ => Event {
+                event_type: EventType::UpdateComplete,
+                event_result: EventResult::Error,
+                errorcode: Some(EventErrorCode::Installation),
+                previous_version: Some("1.2.3.4".into()),
+                next_version: Some("2.0".into()),
+                download_time_ms: Some(1500),
+            },
+        }
+    }
+
+    fn braced_guid(s: &str) -> bool {
+        let b = s.as_bytes();
+        b.len() == 38 && b[0] == b'{' && b[37] == b'}'
+            && b[1..37].iter().enumerate().all(|(i, c)| if matches!(i, 8 | 13 | 18 | 23) { *c == b'-' } else { c.is_ascii_hexdigit() })
+    }
+
+    /// structural equality: object key order free, array order not; an empty expected [] also stands for {}
+    fn same(exp: &Value, got: &Value) -> bool {
+        match (exp, got) {
+            (Value::Array(a), Value::Object(o)) if a.is_empty() && o.is_empty() => true,
+            (Value::Object(a), Value::Object(b)) => a.len() == b.len() && a.iter().all(|(k, v)| b.get(k).map(|w| same(v, w)).unwrap_or(false)),
+            (Value::Array(a), Value::Array(b)) => a.len() == b.len() && a.iter().zip(b).all(|(x, y)| same(x, y)),
+            (Value::String(s), Value::String(t)) if s == "@GUID" => braced_guid(t),
+            (Value::Number(a), Value::Number(b)) => a.as_i64() == b.as_i64() && a.as_i64().is_some(),
+            (a, b) => a == b,
+        }
+    }
+
+    pub fn run(vec_path: &str, out_path: &str) {
+        let mut out = Out::new(out_path);
+        let config = Config {
+            updater: Updater { name: "wire-updater".into(), version: Version::from([7, 8, 9, 10]) },
+            os: OS { platform: "plat".into(), version: "os1".into(), service_pack: "sp2".into(), arch: "arm64".into() },
+            service_url: "http://wire.example/v1/update".into(),
+            omaha_public_keys: None,
+        };
+        for v in vectors(vec_path) {
+            out.n += 1;
+            let r = guarded(|| -> Vec<(String, Value)> {
+                let mut bad = vec![];
+                let params = RequestParams {
+                    source: if v["p"]["src"] == "ondemand" { InstallSource::OnDemand } else { InstallSource::ScheduledTask },
+                    use_configured_proxies: true,
+                    disable_updates: v["p"]["dis"].as_bool().unwrap(),
+                    offer_update_if_same_version: v["p"]["same"].as_bool().unwrap(),
+                };
+                let mut b = RequestBuilder::new(&config, &params);
+                for o in v["ops"].as_array().cloned().unwrap_or_default() {
+                    let t = o["t"].as_str().unwrap_or("");
+                    b = match o["op"].as_str().unwrap_or("") {
+                        "uc" => b.add_update_check(&template(t)),
+                        "ping" => b.add_ping(&template(t)),
+                        "ev" => b.add_event(&template(t), event(o["e"].as_str().unwrap())),
+                        "sid" => b.session_id(GUID::new()),
+                        _ => b.request_id(GUID::new()),
+                    };
+                }
+                let none: Option<&StandardCupv2Handler> = None;
+                let mut bodies = vec![];
+                for round in 0..2 {
+                    let (req, meta) = match b.build(none) {
+                        Ok(x) => x,
+                        Err(e) => {
+                            bad.push(("build failed".into(), json!(e.to_string())));
+                            return bad;
+                        }
+                    };
+                    let (parts, body) = req.into_parts();
+                    let bytes = futures::executor::block_on(hyper::body::to_bytes(body)).map(|b| b.to_vec()).unwrap_or_default();
+                    if round == 0 {
+                        let exp = &v["exp"];
+                        if parts.method.as_str() != exp["method"] {
+                            bad.push(("method".into(), json!(parts.method.as_str())));
+                        }
+                        if parts.uri.to_string() != config.service_url {
+                            bad.push(("request does not target the service URL".into(), json!(parts.uri.to_string())));
+                        }
+                        if meta.is_some() {
+                            bad.push(("metadata without a CUP handler".into(), json!(true)));
+                        }
+                        let mut hs = serde_json::Map::new();
+                        for (k, val) in parts.headers.iter() {
+                            if hs.contains_key(k.as_str()) {
+                                bad.push(("duplicate header".into(), json!(k.as_str())));
+                            }
+                            hs.insert(k.as_str().to_string(), json!(val.to_str().unwrap_or("@nonascii")));
+                        }
+                        if !same(&exp["headers"], &Value::Object(hs.clone())) {
+                            bad.push(("headers differ from the wire shape".into(), Value::Object(hs)));
+                        }
+                        match serde_json::from_slice::<Value>(&bytes) {
+                            Ok(got) => {
+                                if !same(&exp["body"], &got) {
+                                    bad.push(("body differs from the Omaha v3 wire shape".into(), got));
+                                }
+                            }
+                            Err(e) => bad.push(("body is not JSON".into(), json!(e.to_string()))),
+                        }
+                    }
+                    bodies.push(bytes);
+                }
+                if bodies[0] != bodies[1] {
+                    bad.push(("building twice gives different requests: build consumes or alters the builder".into(), json!(String::from_utf8_lossy(&bodies[1]))));
+                }
+                bad
+            });
+            match r {
+                Ok(bads) => {
+                    for (w, g) in bads {
+                        out.bad(&w, &v, g);
+                    }
+                }
+                Err(p) => out.bad("panic", &v, json!(p)),
+            }
+        }
+        out.finish();
+    }
+}
+pub use wire::run as wire;
